@@ -139,6 +139,9 @@ type PG struct {
 	// Prefix is prepended to every global name the program defines.
 	Prefix string
 	names  []string
+	// Ext, when non-nil, switches on the productions of ext.go (user-defined
+	// types, defconst, trace, standard-library calls).  nil draws nothing.
+	Ext *Ext
 }
 
 var varNames = []string{"a", "b", "c", "x", "y", "z", "n", "m", "acc", "f", "g", "h", "k", "lst", "v", "w"}
@@ -321,6 +324,11 @@ func (g *PG) Expr(sc *scope, ty Ty, depth int) Val {
 			return v
 		}
 		return g.literal(ty)
+	}
+	if g.Ext != nil {
+		if v, ok := g.extHook(sc, ty, depth); ok {
+			return v
+		}
 	}
 	if g.pct(12, "probe") {
 		return g.probe(g.Expr(sc, ty, depth-1))
